@@ -111,6 +111,9 @@ type c10case struct {
 	// Marked: the client itself sends "x-piko-forward: true", the marker nodes put
 	// on requests they forward (it is client-controlled, so it must not buy anything)
 	Marked bool `json:"client_sends_forward_marker,omitempty"`
+	// UnknownTenant: the request carries x-piko-tenant-id although the proxy port
+	// has no tenants: refused whatever the token says
+	UnknownTenant bool `json:"unknown_tenant_header,omitempty"`
 }
 
 // proxyCase sends one request and returns (status, stamp).
@@ -121,6 +124,9 @@ func (rg *c10rig) proxyCase(c c10case, tok string) (int, string, error) {
 	}
 	authH := [2]string{"Authorization", "Bearer " + tok}
 	markH := [2]string{"X-Verif-Nop", "1"}
+	if c.UnknownTenant {
+		markH = [2]string{"x-piko-tenant-id", "nobody"}
+	}
 	if c.Marked {
 		markH = [2]string{"x-piko-forward", "true"}
 	}
@@ -218,8 +224,12 @@ func runC10Endpoints(sh *core.Shard, a props.Args) bool {
 						others = c10Endpoints
 					}
 					for _, other := range others {
-						for _, marked := range []bool{false, true} {
+						for _, variant := range []string{"", "forward-marker", "unknown-tenant"} {
+							marked, unknownTenant := variant == "forward-marker", variant == "unknown-tenant"
 							if (naming == "conflict" || naming == "tcp-conflict") && other == target {
+								continue
+							}
+							if unknownTenant && (naming == "tcp" || naming == "conflict") {
 								continue
 							}
 							if marked && (cs.permits(target) || naming == "tcp") {
@@ -227,7 +237,7 @@ func runC10Endpoints(sh *core.Shard, a props.Args) bool {
 								// refusals are decided here (the tunnel dialer cannot add headers)
 								continue
 							}
-							c := c10case{cs.Name, naming, target, other, via, marked}
+							c := c10case{cs.Name, naming, target, other, via, marked, unknownTenant}
 							// Host labels are case-preserving here; piko routes by the exact string
 							before := rg.seenTotal()
 							status, stamp, err := rg.proxyCase(c, tok)
@@ -243,12 +253,16 @@ func runC10Endpoints(sh *core.Shard, a props.Args) bool {
 								desc += ", the client itself sending x-piko-forward: true"
 								sh.Count("proxy_cases_with_client_forward_marker", 1)
 							}
+							if unknownTenant {
+								desc += ", with an x-piko-tenant-id header although the port has no tenants"
+								sh.Count("proxy_cases_with_unknown_tenant_header", 1)
+							}
 							served := stamp != ""
 							if served && stampEndpoint(stamp) != target {
 								sh.Violate("routed-elsewhere", fmt.Sprintf("%s: served by upstream %s: the endpoint that was routed to is not the one that was named", desc, stamp), c)
 								return false
 							}
-							if cs.permits(target) {
+							if cs.permits(target) && !unknownTenant {
 								if !served || (status != 200 && status != 101) {
 									if status == 502 {
 										// routing hiccup (false suspicion under load): retry once after settling
@@ -274,7 +288,7 @@ func runC10Endpoints(sh *core.Shard, a props.Args) bool {
 								}
 								sh.Count("not_permitted_refused", 1)
 							}
-							sh.Nontrivial(core.Hash("proxy", cs.Name, naming, target, other, via, marked))
+							sh.Nontrivial(core.Hash("proxy", cs.Name, naming, target, other, via, variant))
 						}
 					}
 				}
@@ -482,12 +496,12 @@ func runC10(sh *core.Shard, a props.Args) {
 func init() {
 	props.Register(&props.Prop{
 		ID: "C10", Level: "fault_enumeration", Race: true, ExhaustiveWhenAll: true,
-		Rule: "endpoint confinement: a 2-node real cluster with HMAC auth on proxy and upstream ports and one stamping upstream per endpoint of {a, a1, A, a-b, b}; 11 claim sets (no claim, empty list, [a], [a b], [a1], [A], [a-b], [b], [a.], [a*], ['']) x naming in {first Host label, x-piko-endpoint header, conflicting Host label + header, /_piko/v1/tcp path, the TCP path with a header and Host label naming another endpoint} x every target (x every other endpoint in the Host for conflicts) x local and forwarded entry, the refusals also with the client itself sending the x-piko-forward marker; oracle: served (2xx/101 + stamp) iff the claim set is empty or lists exactly the named endpoint, the stamp's endpoint equals the named endpoint (the endpoint checked is the endpoint routed to), otherwise 401 and no upstream saw the request. Upstream port: the same claim sets x 8 endpoint ids: accepted (101) iff permitted and then exactly one more upstream appears in the registry under exactly that id; otherwise 401 and the registry is unchanged. Tenant matrix: tenant tables of 0-3 tenants with distinct keys, with and without a default key; every (token signed by default / t1 / t2 / t3 / unknown key) x (x-piko-tenant-id absent, t1, t2, t3, unknown, T1, default): accepted iff the header names a configured tenant whose key signed the token, or no tenants are configured, no header is sent and the default key signed it. All three matrices are enumerated completely. Distinct = one per case.",
+		Rule: "endpoint confinement: a 2-node real cluster with HMAC auth on proxy and upstream ports and one stamping upstream per endpoint of {a, a1, A, a-b, b}; 11 claim sets (no claim, empty list, [a], [a b], [a1], [A], [a-b], [b], [a.], [a*], ['']) x naming in {first Host label, x-piko-endpoint header, conflicting Host label + header, /_piko/v1/tcp path, the TCP path with a header and Host label naming another endpoint} x every target (x every other endpoint in the Host for conflicts) x local and forwarded entry, the refusals also with the client itself sending the x-piko-forward marker, and every case also with an x-piko-tenant-id header (no tenants are configured on the proxy port, so all of those are refusals); oracle: served (2xx/101 + stamp) iff the claim set is empty or lists exactly the named endpoint, the stamp's endpoint equals the named endpoint (the endpoint checked is the endpoint routed to), otherwise 401 and no upstream saw the request. Upstream port: the same claim sets x 8 endpoint ids: accepted (101) iff permitted and then exactly one more upstream appears in the registry under exactly that id; otherwise 401 and the registry is unchanged. Tenant matrix: tenant tables of 0-3 tenants with distinct keys, with and without a default key; every (token signed by default / t1 / t2 / t3 / unknown key) x (x-piko-tenant-id absent, t1, t2, t3, unknown, T1, default): accepted iff the header names a configured tenant whose key signed the token, or no tenants are configured, no header is sent and the default key signed it. All three matrices are enumerated completely. Distinct = one per case.",
 		Assumptions: []string{
 			"HMAC keys (confinement logic is independent of the key family, which C09 covers)",
 			"a 502 for a permitted endpoint is retried once after routing re-settles (false suspicion under load is not a confinement matter)",
 		},
-		RequireCounters: []string{"permitted_served", "not_permitted_refused", "proxy_cases_with_client_forward_marker", "permitted_listens", "refused_listens", "tenant_accepted", "tenant_refused"},
+		RequireCounters: []string{"permitted_served", "not_permitted_refused", "proxy_cases_with_client_forward_marker", "proxy_cases_with_unknown_tenant_header", "permitted_listens", "refused_listens", "tenant_accepted", "tenant_refused"},
 		Shards:          func(string) int { return 2 },
 		Run:             runC10,
 	})
